@@ -226,6 +226,7 @@ func runRecords(r *rng, tier string) {
 		}
 		cases = append(cases, flips...)
 		stats["rec.shape-flips"] = len(flips)
+		cases = append(cases, structureCases(r, orig, origDump, tier)...)
 	}
 	if replayRecord != "" {
 		n = 0
